@@ -345,6 +345,7 @@ func ruleC16Accounting(c *Ctx) {
 	key := "sanitizer.(*Command).Sanitize"
 	// per-arm producers: the value written for an int part, by asserted argument type
 	producers := map[string]string{}
+	checks := map[string]bool{"math.IsNaN": true, "math.IsInf": true, "fmt.Errorf": true} // value tests, not producers
 	tbd := NewTB()
 	deepInstrs(f, func(_ *ssa.Function, tb *TB, _ *ssa.BasicBlock, in ssa.Instruction) {
 		call, ok := in.(*ssa.Call)
@@ -354,6 +355,9 @@ func ruleC16Accounting(c *Ctx) {
 		for _, a := range call.Common().Args {
 			t := tb.Of(a)
 			if t.Op == "ext" && t.Name == "0" && t.Args[0].Op == "assertok" && strings.Contains(t.String(), "args[") {
+				if checks[funcName(call.Common().StaticCallee())] {
+					continue
+				}
 				producers[t.Args[0].Name] = funcName(call.Common().StaticCallee())
 			}
 		}
@@ -516,4 +520,169 @@ func ruleC16Pure(c *Ctx) {
 		})
 	}
 	c.Check(bad == "", "c16.pure", "sanitizer.SanitizeSQL", c.P.Pos(f.Pos()), fmt.Sprintf("%d reachable module functions use no package-level state", n), bad)
+}
+
+func init() { register("C16", ruleC16LexerTokenizer) }
+
+// cmpConsts: the integer constants a function compares a value with (==, !=), as a sorted, de-duplicated list.
+func cmpConsts(f *ssa.Function, skip map[int64]bool) []int64 {
+	set := map[int64]bool{}
+	allInstrs(f, func(_ *ssa.BasicBlock, in ssa.Instruction) {
+		bo, ok := in.(*ssa.BinOp)
+		if !ok || (bo.Op != token.EQL && bo.Op != token.NEQ) {
+			return
+		}
+		for _, v := range []ssa.Value{bo.X, bo.Y} {
+			if k, isK := constIntOf(v); isK && !skip[k] {
+				set[k] = true
+			}
+		}
+	})
+	var out []int64
+	for k := range set {
+		out = append(out, k)
+	}
+	sort.Slice(out, func(i, j int) bool { return out[i] < out[j] })
+	return out
+}
+
+// ruleC16LexerTokenizer: where the placeholder lexer and the consuming tokenizer must agree on comments and on the end of input.
+func ruleC16LexerTokenizer(c *Ctx) {
+	c.Doc("c16.lexer-tokenizer", "the placeholder lexer sees a comment exactly where the consuming tokenizer sees one, otherwise a `$n` is substituted inside a comment or left alone outside one (clause injection / altered statement): (a) a one-line comment ends on the same characters as the tokenizer's scanCommentType1 (the line feed only; no backslash escapes); (b) `//` starts a one-line comment as it does for the tokenizer; (c) `--` starts one only in front of white space or the end; (d) block comments do not nest (the tokenizer ends at the first `*/`); (e) every state recognises the end of input by a zero-width decode, so that an invalid UTF-8 byte does not truncate the statement; (f) a placeholder number cannot wrap around; (g) a float argument is rendered only when finite")
+	pkg := c.P.SSAPkgs[sanitizePath]
+	if pkg == nil {
+		c.Unknown("c16.lexer-tokenizer", "sanitizer", "-", "anchor lost")
+		return
+	}
+	fn := func(name string) *ssa.Function { return c.P.Func(sanitizePath, name) }
+	raw, line, block, ph := fn("rawState"), fn("oneLineCommentState"), fn("multilineCommentState"), fn("placeholderState")
+	if raw == nil || line == nil || block == nil || ph == nil {
+		c.Unknown("c16.lexer-tokenizer", "sanitizer", "-", "anchor lost: lexer states")
+		return
+	}
+	// (a) terminators of a one-line comment: lexer vs tokenizer
+	var tokLine *ssa.Function
+	for f := range c.P.allFuncs {
+		if f.Name() == "scanCommentType1" && f.Pkg != nil && f.Pkg.Pkg.Path() == sqlp {
+			tokLine = f
+		}
+	}
+	if tokLine == nil {
+		c.Unknown("c16.lexer-tokenizer", "one-line-comment-end", "-", "anchor lost: tokenizer scanCommentType1")
+	} else {
+		// the tokenizer compares with eofChar (0x100) as well: the end of input, handled by (e) on the lexer side
+		tk := cmpConsts(tokLine, map[int64]bool{0x100: true})
+		lx := cmpConsts(line, map[int64]bool{0xFFFD: true, 0: true, 3: true})
+		c.Check(fmt.Sprint(tk) == fmt.Sprint(lx), "c16.lexer-tokenizer", "one-line-comment-end", c.P.Pos(line.Pos()), fmt.Sprintf("both end a one-line comment on %v", tk), fmt.Sprintf("the lexer treats the characters %v as special inside a one-line comment, the tokenizer %v: with `# ...\\r AND name = $1` the lexer substitutes a placeholder the parser still sees as comment text, and a backslash in a comment hides the line end", lx, tk))
+	}
+	// (b) and (c): arms of rawState
+	slashSet, dashGuard := map[int64]bool{}, false
+	allInstrs(raw, func(b *ssa.BasicBlock, in ssa.Instruction) {
+		bo, ok := in.(*ssa.BinOp)
+		if !ok || bo.Op != token.EQL {
+			return
+		}
+		k, isK := constIntOf(bo.Y)
+		if !isK {
+			return
+		}
+		// which arm: the facts say r == '/' or r == '-'
+		for _, fc := range relFacts(factsAt(b)) {
+			if fc.r != relEQ {
+				continue
+			}
+			arm, isArm := constIntOf(fc.y)
+			if !isArm || fc.x == bo.X {
+				continue
+			}
+			if arm == '/' {
+				slashSet[k] = true
+			}
+			if arm == '-' && (k == ' ' || k == '\n' || k == '\t' || k == '\r') {
+				dashGuard = true
+			}
+		}
+	})
+	c.Check(slashSet['*'] && slashSet['/'], "c16.lexer-tokenizer", "slash-slash-comment", c.P.Pos(raw.Pos()), "`/*` and `//` both start a comment", "after `/` the lexer only looks for `*`: the tokenizer also takes `//` for a one-line comment, so a `$n` behind `//` is substituted into comment text (and an argument with a line feed escapes from it)")
+	c.Check(dashGuard, "c16.lexer-tokenizer", "dash-dash-needs-space", c.P.Pos(raw.Pos()), "`--` is a comment only before white space or the end", "the lexer takes every `--` for a comment; the tokenizer only in front of white space: in `1--$1` the placeholder is an operand and stays unsubstituted")
+	// (d) no nesting counter
+	nests := false
+	for _, f := range c.P.pkgFuncs(sanitizePath) {
+		allInstrs(f, func(_ *ssa.BasicBlock, in ssa.Instruction) {
+			if fa, ok := in.(*ssa.FieldAddr); ok && fieldName(fa.X.Type(), fa.Field) == "nested" {
+				nests = true
+			}
+		})
+	}
+	c.Check(!nests, "c16.lexer-tokenizer", "block-comments-do-not-nest", c.P.Pos(block.Pos()), "a block comment ends at the first `*/`", "the lexer counts nested `/*`: the tokenizer ends a block comment at the first `*/`, so text after it is SQL for the parser but comment for the lexer and its placeholders are skipped")
+	// (e) end of input
+	for _, f := range c.P.pkgFuncs(sanitizePath) {
+		if !strings.HasSuffix(f.Name(), "State") || f.Parent() != nil || f == ph {
+			continue
+		}
+		ok, n := true, 0
+		allInstrs(f, func(_ *ssa.BasicBlock, in ssa.Instruction) {
+			bo, isBo := in.(*ssa.BinOp)
+			if !isBo || (bo.Op != token.EQL && bo.Op != token.NEQ) {
+				return
+			}
+			k, isK := constIntOf(bo.Y)
+			if !isK {
+				return
+			}
+			ex, isEx := bo.X.(*ssa.Extract)
+			if !isEx || ex.Index != 1 {
+				return
+			}
+			if call, isCall := ex.Tuple.(*ssa.Call); !isCall || !strings.HasSuffix(calleeName(call.Common()), "DecodeRuneInString") {
+				return
+			}
+			n++
+			if !(bo.Op == token.EQL && k == 0) {
+				ok = false
+			}
+		})
+		c.Check(ok && n > 0, "c16.lexer-tokenizer", "end-of-input/"+f.Name(), c.P.Pos(f.Pos()), "the end of input is a zero-width decode", "the state ends the statement whenever a decode error has a width other than 3: an invalid UTF-8 byte (width 1) silently truncates the statement, e.g. drops a trailing WHERE clause")
+	}
+	// (f) bounded placeholder number
+	bounded := false
+	allInstrs(ph, func(b *ssa.BasicBlock, in ssa.Instruction) {
+		bo, ok := in.(*ssa.BinOp)
+		if !ok || bo.Op != token.MUL {
+			return
+		}
+		for _, fc := range relFacts(factsAt(b)) {
+			if fc.x == bo.X && (fc.r == relLT || fc.r == relLE) {
+				if _, isK := constIntOf(fc.y); isK {
+					bounded = true
+				}
+			}
+		}
+	})
+	c.Check(bounded, "c16.lexer-tokenizer", "placeholder-number-bounded", c.P.Pos(ph.Pos()), "the accumulation is guarded by an upper bound", "the placeholder number is accumulated without a bound: `$18446744073709551617` wraps around to 1 and takes the first argument instead of being reported as missing")
+	// (g) finite floats
+	san := c.P.Method(sanitizePath, "Command", "Sanitize")
+	finite := false
+	if san != nil {
+		deepInstrs(san, func(_ *ssa.Function, _ *TB, b *ssa.BasicBlock, in ssa.Instruction) {
+			call, ok := in.(*ssa.Call)
+			if !ok || calleeName(call.Common()) != "strconv.FormatFloat" {
+				return
+			}
+			nan, inf := false, false
+			for _, fc := range factsAt(b) {
+				cond, truth := fc.cond, fc.truth
+				if gc, isCall := cond.(*ssa.Call); isCall && !truth {
+					switch calleeName(gc.Common()) {
+					case "math.IsNaN":
+						nan = true
+					case "math.IsInf":
+						inf = true
+					}
+				}
+			}
+			finite = nan && inf
+		})
+	}
+	c.Check(finite, "c16.lexer-tokenizer", "float-finite", "sanitizer/sanitizer.go", "FormatFloat is reached only for finite values", "a float64 argument is rendered without excluding NaN and the infinities: their text (NaN, +Inf) is read by the parser as a column reference, so the argument selects document data")
 }
